@@ -20,7 +20,7 @@ def Obs (w : Wrap.State) (g : GrpcRef.State) : Prop :=
 def Rel : Srv → Wrap.State → GrpcRef.State → Prop
   | .running _, w, g => RelRun w g
   | .done, w, g => Obs w g
-  | .aborted, w, g => Wrap.terminal w = GrpcRef.terminal g
+  | .aborted, w, g => Wrap.header w = GrpcRef.header g ∧ Wrap.terminal w = GrpcRef.terminal g
 
 theorem rel_init : RelRun {} {} := by
   simp [RelRun]
@@ -89,9 +89,17 @@ theorem rel_close {w g} (h : RelRun w g) (fin : Fin) :
         Wrap.terminal, GrpcRef.terminal, h5, canon_wire]
 
 theorem rel_abort {w g} (h : RelRun w g) (a : Abort) :
+    Wrap.header (Wrap.abort w a) = GrpcRef.header (GrpcRef.reset g a) ∧
     Wrap.terminal (Wrap.abort w a) = GrpcRef.terminal (GrpcRef.reset g a) := by
   obtain ⟨h1, h2, h3, h4, h5, h6⟩ := h
-  simp [Wrap.terminal, Wrap.abort, GrpcRef.terminal, GrpcRef.reset, h1, h2]
+  constructor
+  · unfold Wrap.header GrpcRef.header Wrap.abort GrpcRef.reset
+    by_cases hc : w.headerC
+    · simp [hc] at h6
+      simp [hc, h6]
+    · simp [hc] at h6
+      simp [hc, h6, h1, h2]
+  · simp [Wrap.terminal, Wrap.abort, GrpcRef.terminal, GrpcRef.reset, h1, h2]
 
 theorem rel_header {w g} (h : RelRun w g) : Wrap.header w = GrpcRef.header g := by
   obtain ⟨h1, h2, h3, h4, h5, h6⟩ := h
@@ -101,5 +109,180 @@ theorem rel_header {w g} (h : RelRun w g) : Wrap.header w = GrpcRef.header g := 
     simp [hc, h6]
   · simp [hc] at h6
     simp [hc, h6, h1, h2, h3, h4]
+
+/-- The joint runs over the wrapper's state and over the reference's frames agree whenever the two
+states are related: by induction over the run (36 cases of `go`). -/
+theorem go_eq (fin : Fin) (w : Wrap.State) (cc : Bool) (srv : Srv) (cs : List COp) :
+    ∀ g, Rel srv w g → go (Wrap.impl Cfg.current) fin w cc srv cs = go GrpcRef.impl fin g cc srv cs := by
+  fun_induction go (Wrap.impl Cfg.current) fin w cc srv cs
+  case case1 s cc md ss cs ih =>
+    intro g h
+    have := rel_setHeader h md
+    simp only [go]
+    rw [ih _ this.1]
+    simp only [Wrap.impl, GrpcRef.impl, this.2]
+  case case2 s cc md ss cs ih =>
+    intro g h
+    have := rel_sendHeader h md
+    simp only [go]
+    rw [ih _ this.1]
+    simp only [Wrap.impl, GrpcRef.impl, this.2]
+  case case3 s cc md ss cs ih =>
+    intro g h
+    simp only [go]
+    exact ih _ (rel_setTrailer h md)
+  case case4 s cc cs ih =>
+    intro g h
+    simp only [go]
+    exact ih _ (rel_close h fin)
+  case case5 s cc m ss cs ih =>
+    intro g h
+    simp only [go]
+    rw [ih _ (rel_preSend h)]
+    rfl
+  case case6 s cc m ss cs md hmd ih =>
+    intro g h
+    have hp := rel_preSend h
+    have hh := rel_header hp
+    simp only [Wrap.impl] at hmd
+    simp only [go, GrpcRef.impl, ← hh, hmd]
+    exact congrArg _ (ih _ hp)
+  case case7 s cc m ss cs hmd =>
+    intro g h
+    have hp := rel_preSend h
+    have hh := rel_header hp
+    simp only [Wrap.impl] at hmd
+    simp only [go, GrpcRef.impl, ← hh, hmd]
+  case case8 s m ss cs ih =>
+    intro g h
+    simp only [go]
+    exact congrArg _ (ih _ (rel_preSend h))
+  case case9 => intro g h; simp only [go]
+  case case10 x cc m tl hd tl1 h1 h2 h3 =>
+    intro g h
+    cases hd <;> first | (exact absurd rfl h1) | (exact absurd rfl h2) | skip
+    all_goals first | (simp only [go]; done) | skip
+    all_goals (cases cc <;> first | (exact absurd rfl (h3 rfl)) | (simp only [go]))
+  case case11 s ss cs ih =>
+    intro g h
+    simp only [go]
+    exact congrArg _ (ih _ h)
+  case case12 s ss m cs ih =>
+    intro g h
+    simp only [go]
+    exact congrArg _ (congrArg _ (ih _ h))
+  case case13 s ss cs ih =>
+    intro g h
+    have := ih _ h
+    simp only [go] at this ⊢
+    exact congrArg _ this
+  case case14 s ss cs md hmd ih =>
+    intro g h
+    have hh := rel_header h
+    simp only [Wrap.impl] at hmd
+    simp only [go, GrpcRef.impl, ← hh, hmd]
+    exact congrArg _ (ih _ h)
+  case case15 s ss cs hmd =>
+    intro g h
+    have hh := rel_header h
+    simp only [Wrap.impl] at hmd
+    simp only [go, GrpcRef.impl, ← hh, hmd]
+  case case16 s tl a cs ih =>
+    intro g h
+    simp only [go]
+    exact congrArg _ (congrArg _ (ih _ (rel_abort h a)))
+  case case17 => intro g h; simp only [go]
+  case case18 x tl hd tl1 h1 h2 h3 h4 =>
+    intro g h
+    cases hd
+    case send m => exact absurd rfl (h1 m)
+    case closeSend => exact absurd rfl h2
+    case header => exact absurd rfl h3
+    case abort a => exact absurd rfl (h4 a)
+    all_goals simp only [go]
+  case case19 s cc ss cs md hmd ih =>
+    intro g h
+    have hh := rel_header h
+    simp only [Wrap.impl] at hmd
+    simp only [go, GrpcRef.impl, ← hh, hmd]
+    exact congrArg _ (ih _ h)
+  case case20 s cc ss cs hmd =>
+    intro g h
+    have hh := rel_header h
+    simp only [Wrap.impl] at hmd
+    simp only [go, GrpcRef.impl, ← hh, hmd]
+  case case21 s ss cs ih =>
+    intro g h
+    simp only [go]
+    exact congrArg _ (ih _ h)
+  case case22 s cc tl a cs ih =>
+    intro g h
+    simp only [go]
+    exact congrArg _ (congrArg _ (ih _ (rel_abort h a)))
+  case case23 => intro g h; simp only [go]
+  case case24 x cc tl hd tl1 h1 h2 h3 =>
+    intro g h
+    cases hd
+    case header => exact absurd rfl h1
+    case abort a => exact absurd rfl (h3 a)
+    case closeSend => cases cc <;> first | (exact absurd rfl (h2 rfl)) | (simp only [go])
+    all_goals simp only [go]
+  case case25 => intro g h; simp only [go]
+  case case26 s cc cs e he ih =>
+    intro g h
+    have ht : Wrap.terminal s = GrpcRef.terminal g := h.2.2
+    simp only [Wrap.impl] at he
+    simp only [go, GrpcRef.impl, ← ht, he]
+    exact congrArg _ (ih _ h)
+  case case27 s cc cs he =>
+    intro g h
+    have ht : Wrap.terminal s = GrpcRef.terminal g := h.2.2
+    simp only [Wrap.impl] at he
+    simp only [go, GrpcRef.impl, ← ht, he]
+  case case28 s cc cs md hmd ih =>
+    intro g h
+    have hh : Wrap.header s = GrpcRef.header g := h.1
+    simp only [Wrap.impl] at hmd
+    simp only [go, GrpcRef.impl, ← hh, hmd]
+    exact congrArg _ (ih _ h)
+  case case29 s cc cs hmd =>
+    intro g h
+    have hh : Wrap.header s = GrpcRef.header g := h.1
+    simp only [Wrap.impl] at hmd
+    simp only [go, GrpcRef.impl, ← hh, hmd]
+  case case30 s cc cs ih =>
+    intro g h
+    have hh : Wrap.trailer s = GrpcRef.trailer g := h.2.1
+    simp only [go, GrpcRef.impl, Wrap.impl, ← hh]
+    exact congrArg _ (ih _ h)
+  case case31 s cs ih =>
+    intro g h
+    simp only [go]
+    exact congrArg _ (ih _ h)
+  case case32 x cc hd tl h1 h2 h3 h4 =>
+    intro g h
+    cases hd
+    case recv => exact absurd rfl h1
+    case header => exact absurd rfl h2
+    case trailer => exact absurd rfl h3
+    case closeSend => cases cc <;> first | (exact absurd rfl (h4 rfl)) | (simp only [go])
+    all_goals simp only [go]
+  case case33 => intro g h; simp only [go]
+  case case34 s cc cs e he ih =>
+    intro g h
+    have ht : Wrap.terminal s = GrpcRef.terminal g := h.2
+    simp only [Wrap.impl] at he
+    simp only [go, GrpcRef.impl, ← ht, he]
+    exact congrArg _ (ih _ h)
+  case case35 s cc cs he =>
+    intro g h
+    have ht : Wrap.terminal s = GrpcRef.terminal g := h.2
+    simp only [Wrap.impl] at he
+    simp only [go, GrpcRef.impl, ← ht, he]
+  case case36 x cc hd tl h1 =>
+    intro g h
+    cases hd
+    case recv => exact absurd rfl h1
+    all_goals simp only [go]
 
 end ScVerif.C13
